@@ -763,57 +763,95 @@ def describe(c):
 
 
 RULE = ("scripted AsyncRead (delivers the stream in the burst sizes of a schedule, then closes / errors / pends) into the real "
-        "kvarn_async::read::request and kvarn::application::Http1Body::read_to_bytes, plus kvarn_utils::parse::headers directly, in the debug and the "
-        "overflow-unchecked build; compared with the extracted Coq model (correspondence: method, path, query, version, sorted header list, authority, "
-        "early body bytes, body outcome, bytes taken from the connection, or the error class) and with the executable specification (oracle: for a "
-        "request printed from the grammar the fields and the body must be exactly the printed ones (expect); for every other stream the fields, the "
-        "body outcome or the error class must be serve_spec of the delivered bytes, a function without schedule (theorem segmentation_blind); the "
-        "early body bytes must be the bytes of the stream right after the head; no blank line within min(16 KiB, delivered bytes) => error; never a "
-        "panic). Generators: the short messages also with bare-LF line ends in four mixes x every cut position; grammar requests x every cut position (2 and 3 pieces, byte-by-byte) for short messages, random "
+        "kvarn_async::read::request and kvarn::application::Http1Body (read_to_bytes; as AsyncRead with scripted window sizes; drain), "
+        "kvarn_utils::parse::headers directly, in the debug and the overflow-unchecked build; the real HttpConnection::accept (the code's own "
+        "16 KiB head limit, 5 s head time-out, scheme and parse_http_1 glue) on the server end of a loopback TCP pair, and "
+        "kvarn::handle_connection with a host whose only extension answers with the request its handler saw and the body it got from "
+        "read_to_bytes. Compared with the extracted Coq model (correspondence: ok / error, method, path, query, version, sorted header "
+        "list, authority, body outcome, agreement of the early bytes, per-call outcomes and bytes taken for h1.poll) and with the executable "
+        "specification (oracle: for a request printed from the grammar -- any method token of <= 7 bytes, optional whitespace SP/HTAB "
+        "before and after every value, CRLF or bare LF per line -- the fields and the body must be exactly the printed ones (expect); for "
+        "every other stream the fields and the body outcome must be serve_spec of the delivered bytes, a function without schedule "
+        "(theorem segmentation_blind), or an error where it says error; the early bytes must be the bytes of the stream right after the "
+        "head and nothing behind the body may be taken from the connection (consumed = head + max(early, body)); no blank line within "
+        "min(16 KiB, delivered bytes) => error; over loopback: an error or the request within 20 s, never a hang; Http1Body as AsyncRead: "
+        "whatever the calls hand out is a prefix of the declared body, pieces no longer than their windows, end of file only at the end "
+        "of the body, never more than content-length - early bytes taken, a successful drain leaves the connection right behind the body "
+        "and the body unreadable; never a panic). Generators: short messages x every cut position (2 and 3 pieces, byte-by-byte), also "
+        "with bare-LF line ends and with tabs/spaces around the values; grammar requests with random whitespace decorations and random "
         "multi-cut schedules, heads of size 511..16385 with bursts that land the buffer on the capacity thresholds, other head limits, "
-        "content-length {0,1,31,32,33,100,5000} x trailing pipelined request x caller limits x early/late splits, truncated heads and bodies "
-        "(EOF / error / stall), 100 hand-written malformed heads, random mutations, Host values and targets the http crate refuses, "
-        "bounded-exhaustive header blocks over {a : SP CR LF}. distinct_nontrivial counts distinct (component, input, model outcome prefix) triples")
+        "content-length {0,1,31,32,33,100,5000} x trailing pipelined request x caller limits x early/late splits, truncated heads and "
+        "bodies (EOF / error / stall), 100 hand-written malformed heads, random mutations, Host values and targets the http crate refuses, "
+        "bounded-exhaustive header blocks over {a : SP CR LF}, random sequences of read windows / read_to_bytes / drain over random "
+        "early/late splits, loopback: heads of 16383/16384/16385 bytes and an unterminated 40 KB head through the real accept, a client that "
+        "stops in the middle of the head (the real 5 s), one that pauses 1.2 s, grammar requests with bodies and pipelined successors. "
+        "distinct_nontrivial counts distinct (component, input, model outcome prefix) triples")
 ASSUMPTIONS = [
     "read schedule = list of burst sizes; each read returns min(burst, window, bytes left) bytes; the exact theorems (parse_print*, "
-    "schedule_independent*, segmentation_blind, body_*) take schedules of non-empty bursts (sched_pos: a 0-byte read is how a peer says EOF, "
-    "modelled by the end mode), head_limit / stalled_head hold for every schedule",
+    "schedule_independent*, ows_independent, segmentation_blind, body_exact, body_any_schedule, body_read_complete, body_drain_aligns) take "
+    "schedules of non-empty bursts (sched_pos: a 0-byte read is how a peer says EOF, modelled by the end mode); head_limit, stalled_head and "
+    "body_read_capped hold for every schedule",
     "BytesMut::reserve, when it reallocates, yields a capacity >= len + additional (theorems hold for every such growth function; the "
-    "correspondence instantiates it with Vec's amortised doubling max(2*cap, len+additional, 8))",
+    "model run instantiates it with Vec's amortised doubling max(2*cap, len+additional, 8); the comparison with the code does not depend on "
+    "it: how many body bytes arrive with the head is compared only where both sides have them)",
     "http 1.5.0: Method::from_bytes, HeaderName::from_bytes, HeaderValue::from_maybe_shared/to_str, Uri::from_maybe_shared (scheme http/https, "
     "authority scan, path/query classes, UTF-8 check) are transcribed into the model and validated by the differential run, not proved against "
-    "the crate; parse_print takes the crate's verdict on the target as the hypothesis parse_uri .. = Some ..",
+    "the crate; parse_print* take the crate's verdict on the target as the hypothesis parse_uri .. = Some ..",
     "HeaderMap::insert's MAX_SIZE (32768 entries) panic is not modelled: unreachable below 96 KiB of head",
-    "a reader that pends for ever during the body is cut off by the harness after 60 ms and reported as TimedOut, which is what kvarn's own 30 s "
-    "tokio timeout produces; the head timeout is the function's parameter (15 ms in the harness, 5 s in kvarn)",
-    "Http1Body is observed through read_to_bytes (what Body::read_to_bytes gives to handlers); its raw AsyncRead::poll_read is not part of the theorems",
+    "read_to_bytes' inner reads (through tokio's Take into Http1Body::poll_read) are modelled as reads of the connection itself: there "
+    "poll_read's own cap content_length - offset is never below Take's limit; the differential run covers the combination",
+    "a reader that pends for ever during the body is cut off by the harness after 60 ms (scripted reader) resp. 10 s (loopback) and reported as "
+    "TimedOut, which is what kvarn's own 30 s tokio timeout produces; the head time-out of the scripted runs is the function's parameter "
+    "(15 ms), the loopback runs use kvarn's own 5 s: an error must arrive within 20 s, a client pausing 1.2 s must be served",
+    "over loopback the kernel decides the segmentation: the model reads the same bytes in one burst, which is the same view by theorem "
+    "segmentation_blind; error classes are compared as 'an error' (the property does not name them)",
+    "the cfg(not(feature = \"async-networking\")) copy of the reader in application.rs is not compiled in any supported feature set (https and "
+    "base both enable async-networking) and is not checked",
 ]
 TRUSTED = ["modelled: async/src/lib.rs read_more/read_headers/contains_two_newlines/read::request, utils/src/parse.rs headers/version, "
-           "utils/src/lib.rs valid_method/valid_version/get_body_length_request, src/application.rs Http1Body::read_to_bytes over "
-           "async/src/lib.rs read_to_end_or_max and tokio's Take"]
-LEVEL_TEXT = ("Machine-checked Coq theorems (11, no axioms) over a byte-level executable model of the HTTP/1 request reader (read loop with "
-              "buffer growth through an arbitrary growth function, request-line state machine, header parser with its absolute indices, URI "
-              "assembly, body length, body reader) driven by an arbitrary read schedule (list of burst sizes). parse_print: for every request "
-              "of the grammar (token method of <= 7 letters, target without SP/CR/LF, HTTP/1.0|1.1, header lines name ':' SP^k value CRLF for "
-              "every k >= 0, names unique up to case, visible-ASCII values) followed by any bytes, every schedule delivering head + body, every "
-              "growth function and every end mode, the reader returns exactly method, path, query, version, header list, authority and the "
-              "first min(content-length, limit) bytes after the blank line. parse_print_head: the same for the parser alone, with the bytes "
-              "after the head returned unchanged. parse_print_lf / parse_print_head_lf: the same when the request line, any of the header "
-              "lines and the blank line end in a bare LF instead of CRLF (what the code accepts). schedule_independent: two schedules / "
-              "growth functions / end modes give the same request and body. segmentation_blind: for EVERY byte stream the observable result "
-              "(fields + body outcome, or the error class) equals serve_spec of the delivered bytes, a function without schedule or "
-              "capacities, so malformed heads too are read independently of the segmentation (schedule_independent_any_stream). head_limit / "
+           "utils/src/lib.rs valid_method/valid_version/get_body_length_request, src/application.rs Http1Body::{new, poll_read, "
+           "read_to_bytes, drain} over async/src/lib.rs read_to_end_or_max and tokio's Take; exercised unmodelled (loopback runs, result "
+           "predicted by the model of read::request + Http1Body with max_len = 16384, scheme http): src/application.rs "
+           "HttpConnection::accept / request::parse_http_1, src/lib.rs handle_connection up to the Prepare extension"]
+LEVEL_TEXT = ("Machine-checked Coq theorems (23, no axioms) over a byte-level executable model of the HTTP/1 request reader (read loop with "
+              "buffer growth through an arbitrary growth function, early method check, request-line state machine, header parser with its "
+              "absolute indices and whitespace trimming, URI assembly, body length, body reader, Http1Body as a state machine with poll_read / "
+              "read_to_bytes / drain) driven by an arbitrary read schedule (list of burst sizes). parse_print_ows: for every request of the "
+              "grammar -- ANY method token of <= 7 bytes, target without SP/CR/LF, HTTP/1.0|1.1, header lines name ':' OWS value OWS with OWS "
+              "any mix of spaces and tabs (also none), each line ending in CRLF or a bare LF, names unique up to case, values = RFC 9110 "
+              "field values (visible bytes, obs-text, inner SP/HTAB) -- followed by any bytes, every schedule delivering head + body, every "
+              "growth function and every end mode, the reader returns exactly method, path, query, version, header list WITHOUT the optional "
+              "whitespace, authority and the first min(content-length, limit) bytes after the blank line; parse_print_head_ows: the parser "
+              "alone, with the bytes after the head returned unchanged; parse_print / parse_print_lf / parse_print_head(_lf) are the instances "
+              "without added whitespace; ows_independent / schedule_independent: two spellings, schedules, growth functions, end modes give the "
+              "same request and body; method_token_starts: a token of <= 7 bytes followed by a space passes the early start check. "
+              "segmentation_blind: for EVERY byte stream the observable result (fields + body outcome, or the error class) equals serve_spec "
+              "of the delivered bytes, a function without schedule or capacities (schedule_independent_any_stream). head_limit / "
               "stalled_head: no blank line within max_len (16384) bytes resp. within the delivered bytes => an error, for every schedule "
               "incl. 0-byte reads and every growth function whatsoever. body_exact / body_any_schedule: read_to_bytes returns exactly "
               "min(content-length, limit) bytes and leaves the rest of the stream (the next request) on the connection; short bodies end as "
-              "EOF-prefix / TimedOut / I/O error. All by induction over the stream / the schedule with invariants on the reader state, none "
-              "by enumeration. The model is tied to the code on every run by a differential run of the real functions over a scripted AsyncRead.")
+              "EOF-prefix / TimedOut / I/O error. body_read_capped: Http1Body as AsyncRead, for EVERY sequence of read windows, every stream, "
+              "schedule and end mode, hands out a prefix of the declared body, takes from the connection exactly the part of it that did not "
+              "come with the head, and its unread counter says what is left; body_read_complete: content-length reads of non-empty windows "
+              "give exactly the body, then end of file for ever; body_rest_exact: read_to_bytes after any reads returns the rest of the "
+              "body; body_drain_aligns: after any reads drain leaves the connection at the next request and the body unreadable. ows_value_refuted, method_token_refuted, body_read_capped_refuted, body_rest_refuted: the "
+              "witnesses that these statements were false of the code before this round's five repairs (Model/Http1ReadOld.v). All general "
+              "statements by induction over the stream / the schedule / the window list with invariants on the reader state, none by "
+              "enumeration. The model is tied to the code on every run by a differential run of the real functions over a scripted AsyncRead "
+              "and of the real HttpConnection::accept / handle_connection over loopback.")
 LEVEL_NOTE = ("Trusted: Coq kernel, extraction (reduced by the in-kernel recheck sample), the hand transcription of the anchored Rust functions as "
-              "validated by the differential run (exact equality incl. early bytes and bytes consumed), the http/bytes/tokio crates below the "
-              "modelled functions (http's Uri/HeaderName/HeaderValue/Method checks are transcribed, parse_print takes the Uri verdict as the "
-              "hypothesis expect .. = Some ..). Not covered: optional whitespace other than SP after the colon (a TAB stays in the value) and "
-              "trailing SP (kept in the value); requests whose names repeat; Http1Body as raw AsyncRead (only read_to_bytes). Seven defects were "
-              "found and repaired (fixed: lines in known-findings.txt); the theorems are about the repaired code.")
+              "validated by the differential run (ok/error, fields, body outcome, per-call outcomes of Http1Body; error classes and the split "
+              "early/late are not compared exactly, the oracle bounds them), the http/bytes/tokio crates below the modelled functions (http's "
+              "Uri/HeaderName/HeaderValue/Method checks are transcribed, parse_print* take the Uri verdict as the hypothesis expect .. = Some ..). "
+              "The constants 16 KiB and 5 s and the glue of parse_http_1 are tied by loopback runs through the real accept, not modelled as "
+              "code. Not covered: requests whose header names repeat (judged by segmentation_blind only); methods of 8 bytes and more "
+              "(PROPFIND and PROPPATCH are in utils::valid_method but longer than the parser's 7-byte method buffer: refused with "
+              "InvalidVersion, outside the property's 'method up to 7 letters'); obs-fold (a continuation line is an error: RFC 9112 allows "
+              "that); the body time-out of 30 s (not a clause); the cfg(not(async-networking)) duplicate of the reader. Twelve defects were "
+              "found and repaired in all (fixed: lines in known-findings.txt), five of them in this round: optional whitespace kept in header "
+              "values (Content-Length: 3<SP> => body length 0, body read as the next request), extension methods refused, Http1Body as "
+              "AsyncRead reading past content-length, read_to_bytes starting over after a partial read, drain leaving the body readable; the "
+              "theorems are about the repaired code.")
 TECHNIQUE = "Coq proof (model satisfies the specification for all requests, schedules and growth functions) + differential correspondence model vs. implementation"
 EXHAUSTIVE = False
 
@@ -856,6 +894,8 @@ THEOREMS = [
      r"forall mode early (cl : nat) stream (sched ws : list nat), sched_pos sched -> Forall (fun w => (0 < w)%nat) ws -> (cl <= length ws)%nat -> (cl <= length early + Nat.min (sum_sched sched) (length stream))%nat -> exists b' r', hb_reads mode (hb_new early cl) (mk_reader stream sched) ws = (firstn cl (early ++ stream), b', r', None) /\ rd_data r' = skipn (cl - length early) stream /\ hb_unread b' = 0%nat /\ (forall w, hb_read mode b' r' w = Ok ([], b', r'))"),
     ("body_drain_aligns",
      r"forall mode early (cl : nat) stream (sched ws : list nat) data b' r', sched_pos sched -> Forall (fun w => (0 < w)%nat) ws -> (cl <= length early + Nat.min (sum_sched sched) (length stream))%nat -> hb_reads mode (hb_new early cl) (mk_reader stream sched) ws = (data, b', r', None) -> exists b'' r'', hb_drain mode b' r' = Ok (b'', r'') /\ rd_data r'' = skipn (cl - length early) stream /\ hb_unread b'' = 0%nat /\ (forall w, hb_read mode b'' r'' w = Ok ([], b'', r''))"),
+    ("body_rest_exact",
+     r"forall grow mode early (cl : nat) limit stream (sched ws : list nat) data b' r', grow_ok grow -> sched_pos sched -> Forall (fun w => (0 < w)%nat) ws -> (cl <= length early + Nat.min (sum_sched sched) (length stream))%nat -> hb_reads mode (hb_new early cl) (mk_reader stream sched) ws = (data, b', r', None) -> exists b'' r'', hb_read_to_bytes grow mode b' r' limit = Ok (firstn (N.to_nat limit) (skipn (length data) (firstn cl (early ++ stream))), b'', r'')"),
     ("ows_value_refuted",
      r'exists (h : hline) (d : deco) m e, name_ok (hl_name h) = true /\ value_ok (hl_value h) = true /\ deco_ok d h = true /\ parse_headers_old (print_hlines_d [d] [h] ++ crlf) = Ok (m, e) /\ hm_get (lower (hl_name h)) m <> Some (hl_value h) /\ body_length (B "POST") m = 0 /\ body_length (B "POST") [(lower (hl_name h), hl_value h)] = 3'),
     ("method_token_refuted",
